@@ -20,6 +20,7 @@ struct LifeRegistry {
     uint64_t ctor = 0, dtor = 0, moves = 0, shellDtor = 0;
     const char *prop = "C09";     // property the violations are attributed to
     const char *site = "";        // operation class being executed (set by the engine)
+    std::string (*context)() = nullptr;   // witness supplied by the engine (operation history)
 
     static LifeRegistry &get() { static LifeRegistry r; return r; }
 
@@ -33,7 +34,7 @@ struct LifeRegistry {
         return state.size() - 1;
     }
     bool known(uint64_t oid) const { return oid > 0 && oid < state.size(); }
-    void fail(const char *rule, const std::string &d) { violation(prop, rule, site, d); }
+    void fail(const char *rule, const std::string &d) { violation(prop, rule, site, context ? d + " | " + context() : d); }
 };
 
 constexpr uint64_t kTrackedMagic = 0x54524b4c49564531ULL;   // "TRKLIVE1"
